@@ -22,6 +22,13 @@ def tie(theorems, modules=("Qvnt.Lemmas.GenKernels",), audit="Qvnt/Audit/Gen.lea
     return {"modules": list(modules), "theorems": theorems, "audit": audit, "sources": sources}
 
 
+def tie2(theorems, sources):
+    """second translator (tools/rs2lean2.py -> Generated/Regs.lean), equalities in Lemmas/GenRegs2.lean"""
+    return {"translator": "rs2lean2", "modules": ["Qvnt.Lemmas.GenRegs2"], "theorems": theorems,
+            "audit": "Qvnt/Audit/GenRegs2.lean", "sources": sources}
+
+
+TB_TIE2 = "translator tools/rs2lean2.py (collection-level Rust subset: iterator pipelines over Vec/VecDeque as lists, &mut methods as state-passing functions, loops with fuel, Option for unwrap/unreachable, `match self.th` reduced to the sequential arm after checking that the parallel arm is its rayon twin, random draws as inputs; regenerates Generated/Regs.lean from src/register/quant.rs, src/operator/{single,multi}/mod.rs, src/operator/multi/h.rs, src/math/bits_iter.rs, src/register/class.rs on every run; Lemmas/GenRegs2.lean proves every translated function equal to the model definition) - the translator and the dozen list combinators of Model/RustStd.lean are trusted, the output is not"
 TB_TIE_REG = "translator tools/rs2lean.py (straight-line Rust subset -> Lean; regenerates the classical-register functions of src/register/class.rs on every run; Lemmas/GenRegs.lean proves each equal to the model's CReg function) - the translator itself is trusted, its output is not"
 TB_TIE = "translator tools/rs2lean.py (straight-line Rust subset -> Lean; regenerates Generated/Kernels.lean from the current src/operator/atomic/*.rs, math/mod.rs, dispatch.rs on every run; Lemmas/GenKernels.lean proves each translated function equal to the model definition over any commutative ring) - the translator itself is trusted, its output is not"
 
@@ -38,72 +45,74 @@ INT_STRUCT = [r"i(add|chg|prep)\.(result|summary|blocks?\d*|tail)", r"inew.*", r
 TECH = "Lean 4 proof over a hand-written model + differential correspondence check"
 def tech_tie(part):
     return ("Lean 4 proof over a model whose " + part + " proved equal to the Rust source translated on every run "
-            "(tools/rs2lean.py) + differential correspondence check for the hand-written rest of the model")
+            "(tools/rs2lean.py, tools/rs2lean2.py) + differential correspondence check for the hand-written rest of the model")
 
 PROPS = {
     "C05": {
         "modules": ["Qvnt.Props.C05"],
-        "tie": tie(r".*_op_eq|rotate_eq|negWord_eq|forEach_eq", sources=r"UNSUPPORTED (?!class\.rs|dispatch\.rs: dispatch\.rs::for_each_par)"),
+        "tie": [tie(r".*_op_eq|rotate_eq|negWord_eq|forEach_eq", sources=r"UNSUPPORTED (?!class\.rs|dispatch\.rs: dispatch\.rs::for_each_par)"), tie2(r"quant_\w+_eq|multi_apply_eq|single_apply_eq|parTwins_all", r"UNSUPPORTED (quant\.rs|mod\.rs: operator/(single|multi)/mod\.rs::apply)")],
         "suites": [suite("hist", dict(count=400, max_n=5, steps=14), dict(count=4000, max_n=8, steps=200)),
                    suite("intnu", dict(count=150), dict(count=3000))],
         "mismatch_tags": [r"measure.*", r"resetmask", r"setnum.*", r"tensor.*", r"reset", r"probs", r"qstate", r"q2state"],
         "spec_tags": [r"c05\..*"],
-        "trusted_base": [TB_TIE] + TB_COMMON,
+        "trusted_base": [TB_TIE2] + [TB_TIE] + TB_COMMON,
         "assumptions": ASSUME_COMMON + ["theorems are over the reals (Real.sqrt); 'finite' and 'within rounding' for f64 are outside them and are checked by the oracle on every step of every generated history (|norm - 1| <= 1e-6, finiteness, zero padding)", "a measurement draws an index of positive weight (rand_distr::WeightedIndex contract)", "operators are addressed to qubits the register has"],
         "level_text": "Lean theorems over the reals (Props/C05.lean): the invariant Inv = (buffer of max(2^n,8) entries, zero padding, norm in [(1-1e-9)^2, 1]) holds for new/with_state (norm exactly 1), is preserved by every queue element that preserves the norm and stays inside the register (discharged for all public gates by C01_norm), by measurement (after which the norm is EXACTLY 1, so it cannot shrink over repeated measurements), reset, set_num, and the tensor product multiplies norms; hence it holds in every state reachable by any finite history (C05_reachable, induction over an inductive Step), where the reported probabilities are non-negative and sum to 1. Tied to the code by the hist suite: random histories of apply / measure / measure_mask (also with out-of-range bits) / tensor / set_num / reset-by-mask on 0..5 (8) qubits, up to 14 (200) steps, state compared with the model after every step and validity checked on the implementation's buffer; plus executed interpreter programs with measure/if/reset.",
         "level_note": "Trusted: Lean kernel + standard axioms; model of quant.rs (after the D2/D3/D12 repairs and the rescale follow-up); WeightedIndex contract. normalize() itself never rescales a norm above 1 (C05_normalize_above_one); inside the invariant that cannot occur.",
-        "technique": tech_tie("atomic kernels and element-wise sweep are"),
+        "technique": tech_tie("atomic kernels, element-wise sweep and every register operation of quant.rs (constructors, set_num, reset, collapse, rescale, normalize, measure_mask, reset_by_mask, apply, tensor product) are"),
         "design_ref": "DESIGN.md section 5, C05",
     },
     "C06": {
         "modules": ["Qvnt.Props.C06"],
+        "tie": [tie2(r"quant_(collapse_mask|rescale|measure_mask|measure|get_absolute|get_probabilities)_eq|creg_new_eq", r"UNSUPPORTED quant\.rs: register/quant\.rs::(collapse_mask|rescale|measure_mask|measure|get_absolute|get_probabilities)")],
         "suites": [suite("meas", dict(count=500, max_n=6), dict(count=15000, max_n=10))],
         "mismatch_tags": [r"measure.*"],
         "spec_tags": [r"c06\..*"],
-        "trusted_base": TB_COMMON,
+        "trusted_base": [TB_TIE2] + TB_COMMON,
         "assumptions": ASSUME_COMMON + ["the drawn basis index is an input of the model (logged by the cfg(qvnt_verif) hook); that it has positive probability is the WeightedIndex contract and is checked on every observed draw"],
         "level_text": "Lean theorems over the reals (Props/C06.lean), for every register, mask and drawn index: the returned value is drawn & mask & q_mask (only measured positions, inside the register); amplitudes inconsistent with it are exactly 0; the consistent ones are the old ones times one common positive factor (exactly 1/sqrt of the outcome's weight), so ratios and phases are kept; any index still carrying amplitude agrees with the outcome on the measured bits, hence measuring again returns the same classical register; an empty effective mask changes nothing; bits beyond the register are ignored. No non-degeneracy hypothesis is needed since measurement rescales directly. Tied to the code by the meas suite: random states x masks (empty, partial, full, out-of-range bits), repeated / sub-mask / disjoint re-measurements, both threading models; each clause is also evaluated on the implementation's buffers.",
         "level_note": "Trusted: Lean kernel + standard axioms; model of measure_mask / collapse_mask / rescale.",
-        "technique": TECH,
+        "technique": tech_tie("collapse_mask, rescale and measure_mask are"),
         "design_ref": "DESIGN.md section 5, C06",
     },
     "C07": {
         "modules": ["Qvnt.Props.C07"],
+        "tie": [tie2(r"quant_(get_probabilities|get_absolute|measure_mask|collapse_mask|rescale)_eq", r"UNSUPPORTED quant\.rs: register/quant\.rs::(collapse_mask|rescale|measure_mask|get_absolute|get_probabilities)")],
         "suites": [suite("meas", dict(count=200, max_n=5), dict(count=4000, max_n=8)),
                    suite("born", dict(count=12, shots=2048), dict(count=300, shots=16384))],
         "mismatch_tags": [r"probs", r"measure.*"],
         "spec_tags": [r"c07\..*"],
-        "trusted_base": TB_COMMON + ["rand::thread_rng + rand_distr::WeightedIndex draw index i with probability weight_i / total; rand_distr::StandardNormal draws are i.i.d. N(0,1) (contract, not verified)"],
+        "trusted_base": [TB_TIE2] + TB_COMMON + ["rand::thread_rng + rand_distr::WeightedIndex draw index i with probability weight_i / total; rand_distr::StandardNormal draws are i.i.d. N(0,1) (contract, not verified)"],
         "assumptions": ASSUME_COMMON + ["PARTIAL by nature: the quality of the PRNG and the Gaussian approximation of a multinomial are statistics, not logic; they are covered by the born suite (chi-square on measure_mask frequencies, mean/variance of sample_all cells) with thresholds around p < 1e-12, as supporting evidence only"],
         "level_text": "Lean theorems over the reals (Props/C07.lean): the reported probabilities are |psi_i|^2 / norm^2; the probability of an outcome on a mask is the push-forward of the full-index draw and equals the sum of |psi_i|^2 over the consistent basis states over the norm; probabilities are invariant under positive rescaling; chain rule P(v1 on m1) * P(v2 on m2 | after measuring v1) = P(v1|v2 on m1|m2) for disjoint masks, hence the joint distribution does not depend on the order of measurement; the linear map sample_all applies to its normal draws has exactly the multinomial covariance diag(p) - p p^T. Partial: the statistical behaviour of the external generators is outside any theorem (see assumptions).",
         "level_note": "Trusted: Lean kernel + standard axioms; the distribution contracts of rand / rand_distr; model of get_probabilities and measure_mask.",
-        "technique": TECH + " (+ statistical supporting test)",
+        "technique": tech_tie("get_probabilities, get_absolute and measure_mask are") + " (+ statistical supporting test)",
         "design_ref": "DESIGN.md section 5, C07",
     },
     "C08": {
         "modules": ["Qvnt.Props.C08"],
-        "tie": tie(r"forEachPar_eq|forEachTwins_true", sources=r"UNSUPPORTED dispatch\.rs"),
+        "tie": [tie(r"forEachPar_eq|forEachTwins_true", sources=r"UNSUPPORTED dispatch\.rs"), tie2(r"parTwins_all", r"UNSUPPORTED .*parallel arm differs")],
         "suites": [suite("c08", dict(count=250, max_n=7), dict(count=2500, max_n=8, big=1))],
         "mismatch_tags": [r"threads", r"par", r"qreg"],
         "spec_tags": [r"c08\..*"],
-        "trusted_base": [TB_TIE] + TB_COMMON + ["rayon contract: par_iter_mut().enumerate().for_each / into_par_iter().map().collect() run the closure exactly once per index, in any order and grouping"],
+        "trusted_base": [TB_TIE2] + [TB_TIE] + TB_COMMON + ["rayon contract: par_iter_mut().enumerate().for_each / into_par_iter().map().collect() run the closure exactly once per index, in any order and grouping"],
         "assumptions": ASSUME_COMMON + ["PARTIAL by nature: the interleavings rayon actually produces cannot be enumerated and f64 reduction order is not associative; the theorem covers every schedule abstractly under the rayon contract, the c08 suite (same script with 1 and k threads, repeated, registers up to 2^14 amplitudes in thorough) is supporting exploration"],
         "level_text": "Lean theorems (Props/C08.lean): an element-wise fill visited in ANY order that covers every index (each once, or repeatedly) yields the same buffer as the sequential loop, whatever the buffer held before (C08_fill, C08_fill_repeats, C08_fill_two_schedules) - this is schedule independence of every sweep in dispatch.rs / quant.rs, generic in the closure; any two reduction trees over the same leaves give the same sum under associativity, any permutation under commutativity (and f64 is neither, which is why sums are promised to rounding only); num_threads accepts exactly 0 < k <= available; the threading-model join is commutative, associative, Single neutral. Tied to the code by running identical scripts (apply of random circuits, collapse, normalize, tensor products, probabilities) single-threaded and with k = 2..16 threads, repeated, and comparing bit patterns (sums to rounding), plus the refusal of 0 / too many threads.",
         "level_note": "Trusted: Lean kernel + standard axioms; the rayon contract; that every parallel loop has the same closure as its sequential twin is established by the bit-for-bit comparison, not by proof.",
-        "technique": tech_tie("parallel sweep is (token-identical to the sequential one)"),
+        "technique": tech_tie("parallel sweep is (token-identical to the sequential one), and every `match` on the threading model in quant.rs has a parallel arm that is the sequential arm with rayon adaptors; those are"),
         "design_ref": "DESIGN.md section 5, C08",
     },
     "C11": {
         "modules": ["Qvnt.Props.C11"],
-        "tie": tie(r"creg_(set|xor|reset|get)_eq|notW_eq", modules=("Qvnt.Lemmas.GenRegs",), audit="Qvnt/Audit/GenRegs.lean", sources=r"UNSUPPORTED class\.rs"),
+        "tie": [tie(r"creg_(set|xor|reset|get)_eq|notW_eq", modules=("Qvnt.Lemmas.GenRegs",), audit="Qvnt/Audit/GenRegs.lean", sources=r"UNSUPPORTED class\.rs"), tie2(r"creg_get_by_mask_eq|quant_(reset_by_mask|measure_mask|reset)_eq|bitsList_eq", r"UNSUPPORTED (quant\.rs: register/quant\.rs::(reset_by_mask|measure_mask|reset)|class\.rs|bits_iter\.rs)")],
         "suites": [suite("intnu", dict(count=600), dict(count=20000))],
         "mismatch_tags": INT_STRUCT,
         "spec_tags": [r"refsem\.(psi|creg|run)", r"c11\..*", r"iexpect\.accept"],
-        "trusted_base": [TB_TIE_REG] + TB_COMMON,
+        "trusted_base": [TB_TIE2] + [TB_TIE_REG] + TB_COMMON,
         "assumptions": ASSUME_COMMON + ["measurement outcomes are inputs (the implementation's draw log); declared register sizes are positive in C11_refine_partial (a zero-size register is the known finding D22)"],
         "level_text": "Lean theorems (Props/C11.lean): Sym::finish factors through the event list of the block queue; each statement kind contributes exactly its event (an `if` ALWAYS its own cond event, never merged into a preceding unconditional block; measure and reset their own events; barrier nothing); a cond event applies its operator iff get_by_mask of the condition register equals the value; storeBits changes exactly the paired classical bits (set / xor mode); the interpreter's masks are the reference masks; and the whole pipeline Interp.new -> Sym.finish equals the statement-by-statement reference execution (Spec.refRun) on final state, classical register and remaining draws, for every accepted program with positive register sizes, both measurement modes, user-defined gates included (C11_refine_partial; the unrestricted statement is false because of D22 and is kept in a comment with its counterexample). Tied to the code by the intnu suite (random programs mixing gates, measure in bit and register form, if on any register / value / position, reset of bits and registers, barriers): interpreter state and execution compared with the model for the logged outcomes, and with the reference semantics.",
         "level_note": "Trusted: Lean kernel + standard axioms; model of int/mod.rs, ext_op.rs, sym.rs (after the D11/D12 repairs). reset statistics (C11 'does not change the outcome statistics of other qubits') follow from reset = measure + X and C07_chain.",
-        "technique": tech_tie("classical-bit set / xor / reset functions are"),
+        "technique": tech_tie("classical-bit set / xor / reset / get_by_mask functions and reset_by_mask / measure_mask are"),
         "design_ref": "DESIGN.md section 5, C11 and Appendix B",
     },
     "C12": {
@@ -196,27 +205,28 @@ PROPS = {
     },
     "C15": {
         "modules": ["Qvnt.Props.C15"],
+        "tie": [tie2(r"h_(loop|h)_eq", r"UNSUPPORTED h\.rs")],
         "suites": [suite("dft", dict(count=500, max_n=6), dict(count=6000, max_n=9))],
         "mismatch_tags": None,
         "spec_tags": [r"dft"],
-        "trusted_base": TB_COMMON,
+        "trusted_base": [TB_TIE2] + TB_COMMON,
         "assumptions": ASSUME_COMMON + ["the theorem is over the reals with Real.cos / Real.sin; the implementation uses libm at f64"],
         "level_text": "Lean theorems (Props/C15.lean): for EVERY ascending list of selected bits (any 64-bit mask, contiguous or scattered) the circuit built by qft acts, on every state and index, as lam * DFT on the selected sub-register composed with the qubit reversal, and qft_swapped as lam * DFT, with |lam| = 1 and the identity on the other qubits; the swap layer is the reversal; each 'controlled RZ + RZ/2 on the control' pair is the controlled phase shift up to cis(-theta/4); qft followed by its dagger is the identity. Proved by radix-2 induction over the bit list (Lemmas/Dft*.lean) on top of Ctor.qft_apply (the model constructor builds exactly that circuit). Tied to the code by the dft suite: random masks and states, the implementation's output compared with the model and with the DFT matrix up to one global phase.",
         "level_note": "Trusted: Lean kernel + standard axioms; model of multi/qft.rs (after the D10 repair).",
-        "technique": TECH,
+        "technique": tech_tie("Hadamard-layer constructor multi::h::h is"),
         "design_ref": "DESIGN.md section 5, C15 and Appendix A",
     },
     "C14": {
         "modules": ["Qvnt.Props.C14"],
-        "tie": tie(r"creg_(tensor_prod|with_state|set_num|mask_of|num)_eq", modules=("Qvnt.Lemmas.GenRegs",), audit="Qvnt/Audit/GenRegs.lean", sources=r"UNSUPPORTED class\.rs"),
+        "tie": [tie(r"creg_(tensor_prod|with_state|set_num|mask_of|num)_eq", modules=("Qvnt.Lemmas.GenRegs",), audit="Qvnt/Audit/GenRegs.lean", sources=r"UNSUPPORTED class\.rs"), tie2(r"quant_(new|with_state|set_num|reset|tensor_prod|get_probabilities)_eq|creg_(mul|mul_assign|new)_eq", r"UNSUPPORTED (quant\.rs: register/quant\.rs::(new|with_state|set_num|reset|tensor_prod|get_probabilities)|class\.rs)")],
         "suites": [suite("reg", dict(count=500, max_n=6), dict(count=10000, max_n=9))],
-        "mismatch_tags": [r"qobs.*", r"tensor.*", r"setnum.*", r"probs", r"polar", r"qvreg", r"creg", r"ctensor", r"qstate", r"q2state", r"q2reg"],
+        "mismatch_tags": [r"qobs.*", r"tensor.*", r"setnum.*", r"probs", r"polar", r"qvreg", r"creg", r"ctensor", r"cmulassign", r"qstate", r"q2state", r"q2reg"],
         "spec_tags": [r"c14\..*"],
-        "trusted_base": [TB_TIE_REG] + TB_COMMON,
+        "trusted_base": [TB_TIE2] + [TB_TIE_REG] + TB_COMMON,
         "assumptions": ASSUME_COMMON + ["get_polar (to_polar: hypot/atan2 from libm) is checked by the correspondence only: the polar pairs must reconstruct the model's amplitudes and there must be 2^n of them"],
         "level_text": "Lean theorems (Props/C14.lean) over the register model: with_state(n, s) is the basis state s mod 2^n in a buffer of max(2^n, 8) entries; the tensor product has amplitude a[i mod 2^na] * b[i div 2^na] below 2^(na+nb) and zero padding, sizes add, the empty register is neutral on both sides (quantum and classical); probabilities have 2^n entries and the vreg n entries for every n; growing keeps the amplitudes and adds |0> qubits, shrinking yields exactly QReg::new(n). All for every n, every state. Tied to the code by the reg suite (construction with indices >= 2^n, chains of products of 0..3-qubit registers in random states and threading models, grow/shrink sequences, observable sizes) executed on the real crate and the model, with the same statements as oracles on the implementation's outputs.",
         "level_note": "Trusted: Lean kernel + standard axioms; hand-written model of quant.rs/class.rs construction, tensor_prod and set_num (after the D3 repair), validated by the correspondence run.",
-        "technique": tech_tie("classical-register constructors and concatenation are"),
+        "technique": tech_tie("quantum-register constructors, set_num, reset, tensor_prod and the classical-register constructors / products are"),
         "design_ref": "DESIGN.md section 5, C14",
     },
     "C16": {
@@ -233,63 +243,64 @@ PROPS = {
     },
     "C20": {
         "modules": ["Qvnt.Props.C20"],
-        "tie": tie(r"creg_.*_eq|notW_eq", modules=("Qvnt.Lemmas.GenRegs",), audit="Qvnt/Audit/GenRegs.lean", sources=r"UNSUPPORTED class\.rs"),
+        "tie": [tie(r"creg_.*_eq|notW_eq", modules=("Qvnt.Lemmas.GenRegs",), audit="Qvnt/Audit/GenRegs.lean", sources=r"UNSUPPORTED class\.rs"), tie2(r"bits_(from|next)_eq|bitsCollect_eq|bitsList_eq|creg_(get_by_mask|mul|mul_assign|new)_eq|h_(loop|h)_eq", r"UNSUPPORTED (bits_iter\.rs|class\.rs|h\.rs)")],
         "suites": [
             suite("bits", dict(count=500, timeout=60), dict(count=20000, timeout=600)),
         ],
-        "mismatch_tags": [r"bitsiter", r"countbits", r"vreg", r"vnew", r"vidx", r"vpred", r"vlist", r"creg", r"cnew", r"cset", r"cxor", r"cgetmask", r"creset", r"cdebug", r"ctensor", r"csetnum", r"qvreg", r"qvregby"],
+        "mismatch_tags": [r"bitsiter", r"countbits", r"vreg", r"vnew", r"vidx", r"vpred", r"vlist", r"creg", r"cnew", r"cset", r"cxor", r"cgetmask", r"creset", r"cdebug", r"ctensor", r"cmulassign", r"csetnum", r"qvreg", r"qvregby"],
         "spec_tags": [r"c20\..*", r"c14\.size\.vreg"],
-        "trusted_base": [TB_TIE_REG] + TB_COMMON,
+        "trusted_base": [TB_TIE2] + [TB_TIE_REG] + TB_COMMON,
         "assumptions": ASSUME_COMMON + ["machine words are 64 bit (usize)", "CReg shifts by 64 or more (a Rust overflow panic in debug builds) are outside the model"],
         "level_text": "31 Lean theorems (Props/C20.lean): the Rust bit iterator, modelled with the wrapping `pos <<= 1` and explicit fuel, never runs out of fuel and returns exactly the ascending set bits for EVERY 64-bit mask (bit 63 included); VReg contents / every index form are the union of the selected bits; a view exists iff the mask lies inside the register; CReg keeps value < 2^n under with_state/set/xor (masks inside)/reset/set_num/product, updates change exactly the given bits, the product concatenates with the left factor low, the printed form is n binary digits; the h / qft_swapped cursor loops terminate on every word. Tied to the code by running the same operations (masks drawn from the whole word range, top bit set in >50% of cases) on the real crate and the model, plus spec oracles on the implementation's outputs.",
         "level_note": "Trusted: Lean kernel + propext/Classical.choice/Quot.sound; hand-written model of bits_iter.rs, class.rs, virtl.rs, multi/h.rs and multi/qft.rs loops, validated by the correspondence run on every check.",
-        "technique": tech_tie("classical-register functions (class.rs) are"),
+        "technique": tech_tie("bit iterator (BitsIter::next), classical-register functions (class.rs incl. get_by_mask, *, *=) and the cursor loop of multi::h::h are"),
         "design_ref": "DESIGN.md section 5, C20",
     },
     "C01": {
         "modules": ["Qvnt.Props.C01"],
-        "tie": tie(r".*_(op|isValid|actsOn|new)_eq|rotate_eq|negWord_eq|yIPow_eq|forEach_eq|ctrlTest_iff|count_bits_eq", sources=r"UNSUPPORTED (?!class\.rs|dispatch\.rs: dispatch\.rs::for_each_par)"),
+        "tie": [tie(r".*_(op|isValid|actsOn|new)_eq|rotate_eq|negWord_eq|yIPow_eq|forEach_eq|ctrlTest_iff|count_bits_eq", sources=r"UNSUPPORTED (?!class\.rs|dispatch\.rs: dispatch\.rs::for_each_par)"), tie2(r"single_(apply|from)_eq|multi_apply_eq|quant_apply_eq|h_(loop|h)_eq", r"UNSUPPORTED (mod\.rs|h\.rs|quant\.rs: register/quant\.rs::apply)")],
         "suites": [
             suite("c01x", dict(count=0, max_n=3), dict(count=0, max_n=4)),
             suite("c01", dict(count=800, max_n=6), dict(count=20000, max_n=9)),
         ],
         "mismatch_tags": None,
         "spec_tags": [r"op", r"apply", r"applyeach", r"matrix"],
-        "trusted_base": [TB_TIE] + TB_COMMON,
+        "trusted_base": [TB_TIE2] + [TB_TIE] + TB_COMMON,
         "assumptions": ASSUME_COMMON + ["angles enter the theorems as half-angle phases (c, s) with c*c + s*s = 1; the conversion angle -> (cos(a/2), sin(a/2)) is one libm call on each side", "the constants satisfy 2*h*h = 1 (FRAC_1_SQRT_2) and 2*half = 1 exactly in the theorems; in f64 they hold to rounding"],
         "level_text": "Lean theorems (Props/C01.lean, via Lemmas/Kernels, Multi, Ctor, Refine, Matrix): every kernel of src/operator/atomic equals the action of its documented matrix (one-qubit gates for any mask bit, two-qubit gates for any two distinct bits), the multi-bit forms of x y z s t and h are that gate on each selected qubit for EVERY 64-bit mask (including the wrapped i-power arithmetic of y/s/t), u1/u2/u3 are the documented products, constructors needing one/two target bits refuse exactly the other masks, the reported matrix is the linear map performed (finite-sum statement) and the map preserves the norm; for every angle (unit-circle phase), every register size, every state. Tied to the code by an exhaustive small-scope run (all gate kinds x all masks x all basis states, n <= 3; n <= 4 thorough) plus random leaf programs up to 6 (9) qubits, compared against the model and against the documented-matrix reference semantics.",
         "level_note": "Trusted: Lean kernel + standard axioms; hand-written model of the 18 reachable atomic kernels, SingleOp/MultiOp and the constructors of operator/mod.rs, multi/h.rs; the doc-comment matrices transcribed into Spec/Gates.lean. Rounding error is outside the theorems (commutative-ring scalars).",
-        "technique": tech_tie("atomic kernels, constructors, validity tests and element-wise sweep are"),
+        "technique": tech_tie("atomic kernels, constructors, validity tests, element-wise sweep, SingleOp/MultiOp/QReg::apply and multi::h::h are"),
         "design_ref": "DESIGN.md section 5, C01",
     },
     "C02": {
         "modules": ["Qvnt.Props.C02"],
-        "tie": tie(r"forEach_eq|ctrlTest_iff|.*_actsOn_eq", sources=r"UNSUPPORTED dispatch\.rs: dispatch\.rs::for_each:"),
+        "tie": [tie(r"forEach_eq|ctrlTest_iff|.*_actsOn_eq", sources=r"UNSUPPORTED dispatch\.rs: dispatch\.rs::for_each:"), tie2(r"single_(c|act_on)_eq|multi_(c|act_on)_eq", r"UNSUPPORTED mod\.rs: operator/(single|multi)/mod\.rs::(c|act_on)")],
         "suites": [suite("c02", dict(count=800, max_n=5), dict(count=20000, max_n=8))],
         "mismatch_tags": [r"op", r"metactrl", r"metactrl\.acton"],
         "spec_tags": [r"c02\..*"],
-        "trusted_base": [TB_TIE] + TB_COMMON,
+        "trusted_base": [TB_TIE2] + [TB_TIE] + TB_COMMON,
         "assumptions": ASSUME_COMMON,
         "level_text": "Lean theorems (Props/C02.lean): for every operator built from the public gate set and every control mask, .c(m) is refused exactly when m overlaps the qubits acted on or controlled by, otherwise every queue element gets the mask OR-ed into its controls, the reported support is the union, nested controls compose, and the controlled product applies the original map where all bits of m are 1 and leaves every other amplitude untouched (C02_block, proved from the read-locality of every kernel: controlling commutes with composition). Tied to the code by the c02 suite: random operators (products, daggers, already controlled, qft) x control masks (0-3 bits, disjoint and overlapping, nested), with a metamorphic oracle on the implementation's own outputs (E.c(m) on psi against E on the projected state).",
         "level_note": "Trusted: Lean kernel + standard axioms; model of dispatch.rs for_each control test (idx & ctrl == ctrl), SingleOp::c, MultiOp::c. The oracle compares the implementation with itself, so a kernel defect does not raise C02.",
-        "technique": tech_tie("element-wise sweep with its control test is"),
+        "technique": tech_tie("element-wise sweep with its control test and SingleOp::c / MultiOp::c / act_on are"),
         "design_ref": "DESIGN.md section 5, C02",
     },
     "C03": {
         "modules": ["Qvnt.Props.C03"],
-        "tie": tie(r".*_(dgr|op)_eq|rotate_eq|negWord_eq", sources=r"UNSUPPORTED (?!class\.rs|dispatch\.rs)"),
+        "tie": [tie(r".*_(dgr|op)_eq|rotate_eq|negWord_eq", sources=r"UNSUPPORTED (?!class\.rs|dispatch\.rs)"), tie2(r"single_dgr_eq|multi_dgr_eq", r"UNSUPPORTED mod\.rs: operator/(single|multi)/mod\.rs::dgr")],
         "suites": [suite("c03", dict(count=800, max_n=5), dict(count=20000, max_n=8))],
         "mismatch_tags": [r"op", r"metadgr", r"metadgr\.(names|acton)"],
         "spec_tags": [r"c03\..*"],
-        "trusted_base": [TB_TIE] + TB_COMMON,
+        "trusted_base": [TB_TIE2] + [TB_TIE] + TB_COMMON,
         "assumptions": ASSUME_COMMON + ["phases on the unit circle, constants exact (see C01)"],
         "level_text": "Lean theorems (Props/C03.lean): for every operator built from the public gate set (parameterised, controlled, products, qft, u2/u3), with unit-circle phases: dgr(o) after o and o after dgr(o) are the identity on every state, o * dgr(o) applies as the identity, the dagger's matrix is the conjugate transpose of the operator's matrix, dgr(a*b) = dgr(b)*dgr(a), dgr is involutive and commutes with .c. Proved through the refinement build = denote carrying the operator and its dagger together, plus unitarity of every documented matrix. Tied to the code by the c03 suite (random operators up to depth 3, metamorphic oracles: E then E.dgr, E.dgr then E, E*E.dgr, conjugate-transposed matrices, reversed names).",
         "level_note": "Trusted: Lean kernel + standard axioms; model of AtomicOp::dgr for all kinds (after the D1 repair), SingleOp::dgr, MultiOp::dgr.",
-        "technique": tech_tie("atomic kernels and their dgr() are"),
+        "technique": tech_tie("atomic kernels, their dgr(), SingleOp::dgr and MultiOp::dgr are"),
         "design_ref": "DESIGN.md section 5, C03",
     },
     "C04": {
         "modules": ["Qvnt.Props.C04"],
+        "tie": [tie2(r"multi_(apply|mul_assign)_eq|single_apply_eq|quant_apply_eq", r"UNSUPPORTED (mod\.rs: operator/(single|multi)/mod\.rs::(apply|mul_assign)|quant\.rs: register/quant\.rs::apply)")],
         "suites": [
             suite("c04", dict(count=600, max_n=5), dict(count=6000, max_n=8, long=1)),
             suite("ops", dict(count=300, max_n=5), dict(count=3000, max_n=7)),
@@ -298,11 +309,11 @@ PROPS = {
         # disagreements (apply / matrix lines) belong to C01
         "mismatch_tags": [r"op", r"metamul"],
         "spec_tags": [r"c04\..*"],
-        "trusted_base": TB_COMMON,
+        "trusted_base": [TB_TIE2] + TB_COMMON,
         "assumptions": ASSUME_COMMON,
         "level_text": "Lean 4 theorems (Props/C04.lean) prove for every queue, state and scalar type that the model's MultiOp::apply - buffer ping-pong and final swap included - is the left fold of its elements, that * / *= / append are list concatenation (hence any grouping is the same operator, identity neutral) and that QReg::apply of a product is one sweep per element. The model is tied to the code on every run by executing generated products (0..400 elements, all assembly forms) on the real crate and on the model, plus metamorphic oracles on the implementation's own outputs (product vs one-by-one vs regrouped vs identity-padded, commuting disjoint factors).",
         "level_note": "Trusted: Lean kernel + propext/Quot.sound; the hand-written model of multi/mod.rs (validated by the correspondence run); rounding is outside the theorems. C04_commute (operators on disjoint qubits commute) is proved through the refinement to the reference circuit.",
-        "technique": "Lean 4 proof over a hand-written model + differential correspondence check",
+        "technique": tech_tie("queue application with its buffer ping-pong (MultiOp::apply, SingleOp::apply, QReg::apply) and *= are"),
         "design_ref": "DESIGN.md section 5, C04",
     },
 }
